@@ -316,7 +316,11 @@ func init() {
 			}
 			return sc
 		},
-		Monitors: func(sc *Scenario) []Monitor { return []Monitor{&MonProbe{Oracles: []Prober{OracleC03{}}}} },
+		Monitors: func(sc *Scenario) []Monitor {
+			// MonHotCold: a rejected transaction must not leave a trace in memory either (the probes
+			// compare committed states only)
+			return []Monitor{&MonProbe{Oracles: []Prober{OracleC03{}}}, MonHotCold{}}
+		},
 		Distinct: probeDistinct,
 		ExpectProbes: []string{"probe_tx", "c03_accepted", "c03_rejected_free", "c03_rejected_fee", "c03_rejected_fee_custom_coin"},
 	})
